@@ -102,7 +102,8 @@ func VHarness_C06_truncation() {
 	vWorldSetup(n, true)
 	var ops []*operation.AnchoredOperation
 	for i, r := range vW.recs {
-		ops = append(ops, vAnchored(i, r, uint64(10+10*i), uint64(i), true))
+		// anchoring order is fixed by the (distinct) transaction times; transaction numbers are arbitrary
+		ops = append(ops, vAnchored(i, r, uint64(10+10*i), VNondetU64("txn.number"), true))
 	}
 	// store order: rotated, so that sorting matters
 	rot := VNondetRange("rot", 0, n-1)
